@@ -32,9 +32,13 @@ def dense_system(g):
     off = np.concatenate([[0], np.cumsum(dims)]).astype(int)
     N = int(off[-1])
     pos = {id(v): k for k, v in enumerate(vs)}
+    byid = {v.id: v for v in vs}
     b = np.zeros(N)
     H = np.zeros((N, N))
-    for e in g._edges:
+    for e0 in g._edges:
+        # the edge evaluated at THIS graph's vertices, found by id -- whatever Vertex objects the library left the edge bound to
+        e = copy.copy(e0)
+        e.vertices = [byid[i] for i in e.vertex_ids]
         err = np.asarray(e.calc_error(), dtype=np.float64).reshape(-1)
         Js = [np.asarray(J, dtype=np.float64) for J in e.calc_jacobians()]
         Om = np.asarray(e.information, dtype=np.float64)
@@ -809,6 +813,10 @@ def linear_optimum(seed, n):
             if far and rng.random() < 0.7:
                 # the anchors sit at ordinary coordinates (so the optimum is of ordinary size); only the initial guess of the others is far away
                 verts[k].pose = P([rng.gauss(0, 5.0) for _ in range(d)])
+            if rng.random() < 0.4:
+                # the anchor written as callers write it: the flag as third POSITIONAL argument, True / numpy.bool_ / 1
+                verts[k] = Vertex(verts[k].id, verts[k].pose, rng.choice([True, np.bool_(True), 1]))
+        intended_fixed = {verts[k].id for k in fixed_pos}
         # connected: random spanning tree + loops + multi-edges (both directions) + landmark edges with offsets
         pairs = [(rng.randrange(k), k) for k in range(1, nv)]
         for _ in range(rng.randint(0, nv)):
@@ -848,7 +856,9 @@ def linear_optimum(seed, n):
             rows.append(L.T @ A); ys.append(L.T @ y)
         A = np.vstack(rows); y = np.concatenate(ys)
         x0 = np.concatenate([np.asarray(v.pose) for v in vlist])
-        free = np.concatenate([np.arange(k * d, (k + 1) * d) for k, v in enumerate(vlist) if not v.fixed]) if any(not v.fixed for v in vlist) else np.array([], dtype=int)
+        # the anchors are the vertices the CALLER fixed, not whatever flag the library kept
+        isfree = [v.id not in intended_fixed for v in vlist]
+        free = np.concatenate([np.arange(k * d, (k + 1) * d) for k, fr in enumerate(isfree) if fr]) if any(isfree) else np.array([], dtype=int)
         fixed_idx = np.array([j for j in range(N) if j not in set(free.tolist())], dtype=int)
         xs = x0.copy()
         if len(free):
